@@ -4,6 +4,7 @@ R08.1 who may write the Lamport clock (only monotone forms), R08.2 local stamps 
 R08.3 every ingest of an external value advances the clock past it, R08.4 recovery is wired,
 R08.5 every remote delta reaches the clock-advancing ingest on all paths.
 """
+import re
 from .facts import callee, op_place, op_local
 from .lib import src_of_operand, src_of_place, is_callee, TRANSPARENT, all_paths_hit
 from . import lib2
@@ -91,6 +92,21 @@ def _r081(ck, prog, cfg):
                 ck.bad("R08.1", "%s:overwrite-node-clock(%s)%s" % (fn.id, fs[-1]["f"], _tag(cfg)),
                        "a node clock field is overwritten wholesale outside its constructor: stamps may repeat or decrease",
                        fn.where(st["ln"]))
+        # ... and into fields whose struct contains a node clock (`self.replica_state = ShardReplicaState::new(..)`): replacing the
+        # containing state outside its constructor resets the clock just the same
+        for b, i, st in fn.stmts():
+            lhs = st["lhs"]
+            fs = [e for e in lhs.get("p", []) if isinstance(e, dict) and "f" in e]
+            if not fs or lhs["p"][-1] is not fs[-1]:
+                continue
+            owner_types = {o for (o, f_) in clock_fields}
+            ft = fs[-1].get("t", "")
+            if any(ft == o or ft.startswith(o + "<") for o in owner_types) and fn.kind in ("fn", "method", "closure", "coroutine"):
+                # a constructor initialises through an aggregate, not through a field store of an existing value
+                m += 1
+                ck.bad("R08.1", "%s:replace-clock-owner(%s)%s" % (re.sub(r"\{closure#\d+\}", "{closure}", fn.id), fs[-1]["f"], _tag(cfg)),
+                       "a value of type %s, which holds the node's Lamport clock, is replaced wholesale in running code: the clock restarts "
+                       "from zero and stamps issued afterwards repeat or undercut earlier ones" % ft.rsplit("::", 1)[-1], fn.where(st["ln"]))
         # deref-assign through &mut LamportClock (`*clock = x`)
         for b, i, st in fn.stmts():
             lhs = st["lhs"]
@@ -167,6 +183,35 @@ def _r082(ck, prog, cfg):
                         dom = True
             ck.check(dom, "R08.2", key, "a stamp is copied from the clock without a dominating tick: two writes can carry the same stamp",
                      fn.where(st["ln"]), detail="tick dominates stamp copy")
+    # the outer stamp of a ReplicatedValue follows every tick made on its behalf: after a call that ticks the clock for an inner
+    # register, every path to return copies the clock into self.timestamp (observers advance their clocks from that outer stamp)
+    for fn in prog.lib_fns():
+        if fn.id not in takes_clock or fn.d.get("impl_self") != "replication::state::replicated_value::ReplicatedValue":
+            continue
+        cl = takes_clock[fn.id]
+        stores = set()
+        for b, i, st in fn.stmts():
+            rv = st["rv"]
+            fs = [e for e in st["lhs"].get("p", []) if isinstance(e, dict) and "f" in e]
+            if rv["k"] == "use" and fs and fs[-1]["f"] == "timestamp" and len(fs) == 1:
+                sx = src_of_operand(fn, rv["a"])
+                if sx.kind == "path" and sx.local in cl:
+                    stores.add(b)
+        k = 0
+        for cb, t in fn.calls():
+            passes = any((op_place(a) or {}).get("l") in cl or src_of_operand(fn, a).local in cl for a in t["args"] if "c" not in a)
+            if not passes:
+                continue
+            if not (is_callee(t, *TICKING) or (prog.local_callee(fn, t) is not None and prog.local_callee(fn, t).id in takes_clock
+                                              and not is_callee(t, r"LamportClock::update$"))):
+                continue
+            n += 1
+            k += 1
+            path = lib2.path_avoiding(fn, cb, lambda x: fn.term(x)["k"] == "return", lambda x: x in stores)
+            ck.check(path is None, "R08.2", "%s:outer-stamp-follows-tick#%d%s" % (fn.id.replace("replication::state::replicated_value::", ""), k, _tag(cfg)),
+                     "%s ticks the clock for an inner register and can return without copying the clock into self.timestamp: the value's outer "
+                     "stamp stays behind the stamp that decides merges, so a node that ingests it advances its clock too little and its next "
+                     "write of the key loses" % fn.short, fn.where(t["ln"]), detail="self.timestamp = *clock on every path after the tick")
     # LwwRegister::set/delete: timestamp = clock.tick()
     for name in ("replication::lattice::LwwRegister::<T>::set", "replication::lattice::LwwRegister::<T>::delete"):
         fn = prog.one(name)
